@@ -1,9 +1,9 @@
 SPECIFICATION Spec
 CONSTANTS
- Copies = 2  Pad = 3  Concat = TRUE
+ Copies = 2  Pad = 0  Concat = TRUE
  OutOvh = 1
  EarlyTailError = FALSE
- MaxReinit = 0 MemStop = 1000000 MaxRaise = 0 MayFailMain = FALSE Tell = "none"
+ MaxReinit = 0 MemStop = 1000000 MaxRaise = 0 MayFailMain = TRUE Tell = "none"
  CountCalls = TRUE
  NW = 2  HdrSz = 1  TailSz = 1  TailOk = TRUE  Chunk = 1
  Blocks <- B_cat
